@@ -20,7 +20,7 @@ def run(patch):
     finally:
         subprocess.run(['git','-C','/repo','worktree','remove','--force',wt],capture_output=True)
 bad=0
-with cf.ThreadPoolExecutor(max_workers=6) as ex:
+with cf.ThreadPoolExecutor(max_workers=8) as ex:
     for patch,alarms,err in ex.map(run,patches):
         name=patch.replace('/tmp/neutral/','').replace(f'{VERIF}/neutral/','')
         if alarms is None: print(name,'ERR',err); continue
